@@ -45,6 +45,10 @@ type DB struct {
 	byID    map[string][]int // id -> indexes into rows (the engine's primary-key index)
 	Stmts   map[string]int   // statement text -> executions
 	Inserts int
+	// FailReads > 0 makes that many following SELECTs fail with a driver error (connection trouble)
+	FailReads int
+	// FailWrites > 0 makes that many following INSERTs fail before touching the table
+	FailWrites int
 }
 
 var (
@@ -82,6 +86,12 @@ func (db *DB) Drop() {
 }
 
 // Dump returns a copy of all rows as (id, created unix seconds, key_record).
+// SetFailReads arms read failures.
+func (db *DB) SetFailReads(n int) { db.mu.Lock(); db.FailReads = n; db.mu.Unlock() }
+
+// SetFailWrites arms write failures.
+func (db *DB) SetFailWrites(n int) { db.mu.Lock(); db.FailWrites = n; db.mu.Unlock() }
+
 func (db *DB) Dump() [][3]string {
 	db.mu.Lock()
 	defer db.mu.Unlock()
@@ -197,6 +207,10 @@ func (s *stmt) Exec(args []driver.Value) (driver.Result, error) {
 	s.db.mu.Lock()
 	defer s.db.mu.Unlock()
 	s.db.Stmts[s.text]++
+	if s.db.FailWrites > 0 {
+		s.db.FailWrites--
+		return nil, errors.New("sqlmini: injected write failure: connection reset")
+	}
 	for _, i := range s.db.byID[r.id] {
 		if x := s.db.rows[i]; x.created.Equal(r.created) {
 			return nil, fmt.Errorf("sqlmini: duplicate entry '%s-%d' for key 'PRIMARY'", r.id, r.created.Unix())
@@ -229,6 +243,11 @@ func (s *stmt) Query(args []driver.Value) (driver.Rows, error) {
 	}
 	s.db.mu.Lock()
 	s.db.Stmts[s.text]++
+	if s.db.FailReads > 0 {
+		s.db.FailReads--
+		s.db.mu.Unlock()
+		return nil, errors.New("sqlmini: injected read failure: connection reset")
+	}
 	var hit []row
 	cand := s.db.rows
 	for _, c := range conds {
